@@ -68,6 +68,8 @@ Definition KGet := 5.         (* GetObject (+ retries), queues or performs IO wr
 Definition KIOWrite := 6.
 Definition KIOFinal := 7.     (* rename / close / no-op completing a download *)
 
+Inductive fsop := FOpen | FWrite | FClose | FRename | FRemove.
+
 Inductive s3op := OpCreate | OpPart | OpComplete | OpAbort | OpHead | OpData | OpGet.
 
 Definition s3op_eqb (a b : s3op) : bool :=
@@ -159,6 +161,18 @@ Record upload := mkUpload {
   u_abort_while_inflight : bool (* ghost: the abort began while another request was in flight *)
 }.
 
+(** the temporary file of a download to a path *)
+Record filest := mkFile {
+  f_t : Z;
+  f_exists : bool;             (* the temporary name exists *)
+  f_open : bool;
+  f_renamed : bool;            (* published under the destination name *)
+  f_removed : bool;
+  f_writes : Z;
+  f_write_after_close : bool;  (* ghost *)
+  f_renames : Z
+}.
+
 Record state := mkState {
   tasks : list task;
   coords : list coord;
@@ -167,7 +181,8 @@ Record state := mkState {
   reqs : list req;
   uploads : list upload;
   shutdown_phase : Z;          (* 0 none, 1 begun, 2 returned *)
-  after_shutdown_events : Z    (* ghost: S3 / callback events after shutdown returned *)
+  after_shutdown_events : Z;   (* ghost: S3 / callback / file events after shutdown returned *)
+  files : list filest          (* temporary files of downloads to a path, per transfer *)
 }.
 
 (** semaphore ids *)
@@ -217,27 +232,39 @@ Definition upd_sem (i : Z) (d : Z) (l : list (Z * Z)) : list (Z * Z) :=
 
 Definition set_tasks (s : state) (l : list task) : state :=
   mkState l (coords s) (st_sub s) (st_req s) (st_io s) (sems s) (reqs s) (uploads s)
-          (shutdown_phase s) (after_shutdown_events s).
+          (shutdown_phase s) (after_shutdown_events s) (files s).
 Definition set_coords (s : state) (l : list coord) : state :=
   mkState (tasks s) l (st_sub s) (st_req s) (st_io s) (sems s) (reqs s) (uploads s)
-          (shutdown_phase s) (after_shutdown_events s).
+          (shutdown_phase s) (after_shutdown_events s) (files s).
 Definition set_sems (s : state) (l : list (Z * Z)) : state :=
   mkState (tasks s) (coords s) (st_sub s) (st_req s) (st_io s) l (reqs s) (uploads s)
-          (shutdown_phase s) (after_shutdown_events s).
+          (shutdown_phase s) (after_shutdown_events s) (files s).
 Definition set_reqs (s : state) (l : list req) : state :=
   mkState (tasks s) (coords s) (st_sub s) (st_req s) (st_io s) (sems s) l (uploads s)
-          (shutdown_phase s) (after_shutdown_events s).
+          (shutdown_phase s) (after_shutdown_events s) (files s).
 Definition set_uploads (s : state) (l : list upload) : state :=
   mkState (tasks s) (coords s) (st_sub s) (st_req s) (st_io s) (sems s) (reqs s) l
-          (shutdown_phase s) (after_shutdown_events s).
+          (shutdown_phase s) (after_shutdown_events s) (files s).
 Definition set_shutdown (s : state) (p : Z) : state :=
   mkState (tasks s) (coords s) (st_sub s) (st_req s) (st_io s) (sems s) (reqs s) (uploads s)
-          p (after_shutdown_events s).
+          p (after_shutdown_events s) (files s).
 Definition bump_after_shutdown (s : state) : state :=
   if shutdown_phase s =? 2
   then mkState (tasks s) (coords s) (st_sub s) (st_req s) (st_io s) (sems s) (reqs s) (uploads s)
-               (shutdown_phase s) (after_shutdown_events s + 1)
+               (shutdown_phase s) (after_shutdown_events s + 1) (files s)
   else s.
+
+Definition set_files (s : state) (l : list filest) : state :=
+  mkState (tasks s) (coords s) (st_sub s) (st_req s) (st_io s) (sems s) (reqs s) (uploads s)
+          (shutdown_phase s) (after_shutdown_events s) l.
+
+Fixpoint find_file (t : Z) (l : list filest) : option filest :=
+  match l with
+  | [] => None
+  | x :: r => if f_t x =? t then Some x else find_file t r
+  end.
+Definition upd_file (t : Z) (f : filest -> filest) (l : list filest) : list filest :=
+  map (fun x => if f_t x =? t then f x else x) l.
 
 Definition get_stage (s : state) (g : stage) : stg :=
   match g with SSub => st_sub s | SReq => st_req s | SIO => st_io s
@@ -245,11 +272,11 @@ Definition get_stage (s : state) (g : stage) : stg :=
 Definition set_stage (s : state) (g : stage) (x : stg) : state :=
   match g with
   | SSub => mkState (tasks s) (coords s) x (st_req s) (st_io s) (sems s) (reqs s) (uploads s)
-                    (shutdown_phase s) (after_shutdown_events s)
+                    (shutdown_phase s) (after_shutdown_events s) (files s)
   | SReq => mkState (tasks s) (coords s) (st_sub s) x (st_io s) (sems s) (reqs s) (uploads s)
-                    (shutdown_phase s) (after_shutdown_events s)
+                    (shutdown_phase s) (after_shutdown_events s) (files s)
   | SIO => mkState (tasks s) (coords s) (st_sub s) (st_req s) x (sems s) (reqs s) (uploads s)
-                   (shutdown_phase s) (after_shutdown_events s)
+                   (shutdown_phase s) (after_shutdown_events s) (files s)
   | SInline => s
   end.
 
@@ -395,6 +422,7 @@ Inductive event :=
   | ES3Effect (r : Z) (uid : Z)
   | ES3End (r : Z) (ok : bool)
   | EResult (a : actor) (t : Z) (raised : bool)
+  | EFs (a : actor) (t : Z) (op : fsop)
   | EShutdownBegin
   | EStageShutdown (g : stage)
   | EStageJoined (g : stage)
@@ -958,6 +986,57 @@ Definition step (s : state) (e : event) : option state :=
       | None => None
       end
 
+  | EFs a t op =>
+      if busy s a then None else
+      let io_writer :=
+        match find_task a (tasks s) with
+        | Some x => (k_t x =? t) && tst_eqb (k_st x) TMain && (k_kind x =? KIOWrite)
+        | None => false
+        end in
+      let io_final :=
+        match find_task a (tasks s) with
+        | Some x => (k_t x =? t) && tst_eqb (k_st x) TMain && (k_kind x =? KIOFinal)
+        | None => false
+        end in
+      let cleaner :=
+        match find_coord t (coords s) with
+        | Some c => match c_cl_runner c with Some b => b =? a | None => false end
+        | None => false
+        end in
+      let s0 := bump_after_shutdown s in
+      match op, find_file t (files s) with
+      | FOpen, None =>
+          if io_writer then Some (set_files s0 (files s ++ [mkFile t true true false false 0 false 0])) else None
+      | FOpen, Some _ => None        (* the deferred file is opened once *)
+      | FWrite, Some f =>
+          if io_writer && f_open f
+          then Some (set_files s0 (upd_file t (fun x =>
+                 mkFile (f_t x) (f_exists x) (f_open x) (f_renamed x) (f_removed x) (f_writes x + 1)
+                        (f_write_after_close x) (f_renames x)) (files s)))
+          else None
+      | FClose, Some f =>
+          (* closing an already closed file object is a no-op *)
+          if io_final || cleaner
+          then Some (set_files s0 (upd_file t (fun x =>
+                 mkFile (f_t x) (f_exists x) false (f_renamed x) (f_removed x) (f_writes x)
+                        (f_write_after_close x) (f_renames x)) (files s)))
+          else None
+      | FRename, Some f =>
+          if io_final && negb (f_open f) && f_exists f
+          then Some (set_files s0 (upd_file t (fun x =>
+                 mkFile (f_t x) false false true (f_removed x) (f_writes x)
+                        (f_write_after_close x) (f_renames x + 1)) (files s)))
+          else None
+      | FRemove, Some f =>
+          if cleaner
+          then Some (set_files s0 (upd_file t (fun x =>
+                 mkFile (f_t x) false (f_open x) (f_renamed x) (f_exists x || f_removed x) (f_writes x)
+                        (f_write_after_close x) (f_renames x)) (files s)))
+          else None
+      | FRemove, None => if cleaner then Some s0 else None    (* nothing was ever created *)
+      | _, None => None
+      end
+
   | EShutdownBegin =>
       if shutdown_phase s =? 0 then Some (set_shutdown s 1) else None
 
@@ -996,4 +1075,4 @@ Definition init (w_sub w_req w_io q_sub q_req q_io mem_up mem_down : Z) : state 
   mkState [] []
           (mkStg [] 0 w_sub false false []) (mkStg [] 0 w_req false false []) (mkStg [] 0 w_io false false [])
           [(SEM_SUB, q_sub); (SEM_REQ, q_req); (SEM_IO, q_io); (SEM_UP, mem_up); (SEM_DOWN, mem_down)]
-          [] [] 0 0.
+          [] [] 0 0 [].
